@@ -182,3 +182,41 @@ Ltac jfin s W Hop s1 Hs1 Hm1 mn md :=
   | jmemgoal s W Hop Hm1 mn md
   | jwf s W s1 Hs1; try jarith ].
 
+(* run a routine whose body is a chain of lets and binds, one construct at a time from the head, in a
+   goal [Q prog]; the current state stays an explicit normalised term *)
+Ltac cps_goal :=
+  match goal with |- refines_step ?s (bind ?P ?K) =>
+    let Q := fresh "Q" in pose (Q := fun r : res unit => refines_step s (bind r K)); change (Q P) end.
+Ltac run_side s W s1 Hs1 :=
+  jnorm; to_initial s s1 Hs1;
+  first [ apply W | assumption | add16_rng | apply byte_range | apply opnd_range | lia ].
+Ltac run_head s W s1 Hs1 :=
+  repeat first
+   [ progress (jnorm; to_initial s s1 Hs1; rw_hyps; lits)
+   | match goal with |- ?Q (let x := ?E in @?B x) => change (Q (B E)); cbv beta end
+   | match goal with |- ?Q (bind (Ok _ _) _) => rewrite bind_Ok; cbv beta end
+   | match goal with |- ?Q (bind (nRead _ _ _) _) => rewrite nRead_b by run_side s W s1 Hs1; hide_events end
+   | match goal with |- ?Q (bind (nWrite _ _ _ _) _) => rewrite nWrite_ok by run_side s W s1 Hs1; hide_events end
+   | match goal with |- ?Q (if negb true then _ else _) => cbv beta iota delta [negb] end
+   | match goal with |- ?Q (if negb false then _ else _) => cbv beta iota delta [negb] end ].
+
+Ltac block_move op routine mn :=
+  start_mode Step_blk22 op;
+  match goal with W : wf ?s, Hop : opcode_at ?s = _, Hs1 : same ?s ?s1, Hm1 : mem ?s1 = mem ?s |- _ =>
+  pose_ranges s W; opnd_ranges s;
+  cbv beta delta [routine]; cps_goal;
+  let HX := fresh "HX" in let HM := fresh "HM" in let EC := fresh "EC" in
+  destruct (wf_X s W) as [HX | HX]; destruct (wf_M s W) as [HM | HM]; run_head s W s1 Hs1;
+  rewrite ?Hm1, ?add16_add16; change (1 + 1) with 2;
+  change (byte (mem s) (get f_RK s * 65536 + add16 (get f_PC s) 1)) with (opnd s 1);
+  change (byte (mem s) (get f_RK s * 65536 + add16 (get f_PC s) 2)) with (opnd s 2);
+  rewrite ?(join16 (get f_RAh s) (get f_RAl s)) by assumption;
+  match goal with |- context [w_eqb ?c 65535] => destruct (w_eqb c 65535) eqn:EC end;
+  unfold w_eqb, sub16 in EC; cbv beta iota delta [negb]; run_head s W s1 Hs1;
+  match goal with Q := _ |- _ => subst Q end; cbv beta;
+  (apply refines_finish; unfold advance;
+   [ jabs s W Hop s1 Hs1 Hm1 mn BlockMove; unfold w16; rewrite ?EC; cbv beta iota; apply mkArch_eq; jfield
+   | jmemgoal s W Hop Hm1 mn BlockMove
+   | jwf s W s1 Hs1; try jarith ])
+  end.
+
